@@ -121,7 +121,7 @@ fn play(e: &mut ChessEngine, m: &mut Model, mv: Mv, trace: &mut Vec<String>, st:
 }
 
 /// reversible manoeuvres available now: (a, b, a^-1, b^-1) all quiet non-pawn moves
-fn shuffles(p: &Pos) -> Vec<[Mv; 4]> {
+pub fn shuffles(p: &Pos) -> Vec<[Mv; 4]> {
     let mut out = vec![];
     let quiet = |q: &Pos, m: &Mv| {
         let k = q.kind(*m);
